@@ -58,7 +58,7 @@ def main():
                   driver_ok=os.path.exists(core.DRIVER), translator='skipped')
     else:
         ctx.log('building Lean model and theorems')
-        pr = core.prove(prop, ctx.log)
+        pr = core.prove(prop, ctx.log, args.tier)
     ctx.model_ok = pr['driver_ok']
     ctx.log('proof: %d/%d theorems discharged, broken=%d' % (len(pr['discharged']), len(pr['theorems']),
                                                               len(pr['broken'])))
@@ -137,6 +137,7 @@ def main():
         'explanation': getattr(mod, 'EXPLANATION', ''),
         'broken_obligations': pr['broken'],
         'model_driver_available': bool(ctx.model_ok),
+        'leanchecker': pr.get('leanchecker', 'not run (thorough tier only)'),
     }
     coverage.update(ctx.notes)
     ev = {
